@@ -184,7 +184,7 @@ pub fn extreme_cfgs() -> Vec<Cfg> {
 }
 
 pub fn run(rep: &mut Report, thorough: bool) {
-    rep.rule = "0 deviations: the base corpus (one well-formed frame per leaf of the dispatch tree, both IP versions, UDP and TCP behind a valid cookie); 1 deviation: EVERY truncation, EVERY value of the edge set (all 256 values for 8-bit fields) of every length / offset / count / selector field of every layer, every byte position x all 256 values (quick: L2-L4 headers + first 48 payload bytes; thorough: all positions), tails up to the 4096-byte bound; 2 deviations (thorough): pairs of header fields and field x truncation; all strings of length <= 4 (thorough 5) over a 9-symbol alphabet after each signature prefix; histories: every frame of the corpus fed in every reachable parser control state; configurations: {self-IP} x {deny} x {none, console, logfmt} x {off..trace} = 72, all of them for the corpus + truncations + field values, the three extreme ones for the rest; both build profiles (dev: overflow checks and debug assertions on; release). Oracle: the driver reports ok (never panic), the process stays alive, an answer arrives within the watchdog".into();
+    rep.rule = "0 deviations: the base corpus (one well-formed frame per leaf of the dispatch tree, both IP versions, UDP and TCP behind a valid cookie); 1 deviation: EVERY truncation, EVERY value of the edge set (all 256 values for 8-bit fields) of every length / offset / count / selector field of every layer, every byte position x all 256 values (quick: L2-L4 headers + first 48 payload bytes; thorough: all positions), tails up to the 4096-byte bound; 2 deviations (thorough): pairs of header fields and field x truncation; all strings of length <= 4 (thorough 5) over a 9-symbol alphabet after each signature prefix; histories: every frame of the corpus fed in every reachable parser control state; configurations: {self-IP} x {deny} x {none, console, logfmt} x {off..trace} = 72, all of them for the corpus + truncations + field values, the three extreme ones for the rest; both build profiles (dev: overflow checks and debug assertions on; release). Oracle: the driver reports ok (never panic), the process stays alive, an answer arrives within the watchdog; ADDED LATER: text fields of every length with multi-byte fills, every corpus payload grown to 15 sizes up to 70000 bytes, a BFS over the real connection table with SYN / HTTP / RPC / SSH / invalid data events (dev profile), and 70000 connections validated in one table".into();
     rep.assumptions = vec![
         "log-macro arguments evaluated at level L are a subset of those evaluated at trace; there is no log_enabled!-conditional code (grep re-checked below)".into(),
         "a closed stdout (EPIPE in println!) is an environment fault outside the quantifier".into(),
